@@ -1,6 +1,7 @@
 import PicoProofs.EncProg
 import PicoProofs.FieldLemmas
 import PicoProofs.Tie
+import PicoProofs.GoTieEncTypes
 /-
 C13 — Each low-level Encoder/Decoder call handles exactly one reference-encoded field.
 (encoder side: every writer variant appends the specification's encoding or nothing; nested
@@ -139,5 +140,68 @@ theorem C13_absent_leaves_no_trace (tag : Bytes) (ops : List EncLow.LOp) :
 /-- TIE: the 60 writers and 30 readers have the shapes the model transcribes -/
 theorem C13_tables : Tie.sameRows Gen.encRows Tie.expectedEncRows = true ∧ Tie.sameRows Gen.decRows Tie.expectedDecRows = true :=
   ⟨Tie.encoder_table_expected, Tie.decoder_table_expected⟩
+
+/-! ### the same, for the typed readers and writers translated from decoder_types.go / encoder_types.go -/
+
+open Pico.GoTie.DT Pico.GoTie.ET in
+/-- SOURCE: the translated `Decoder.<Kind>(field, &v)` is the model's reader: with another field
+pending it changes nothing, -/
+theorem C13_source_reader_other_field (k : Scalar) (field : Int) (d : Dec) (v : GoVal k)
+    (h : field ≠ d.cur.pendingField) : srcReadSingle k field d v = .ok (d, v) := by
+  rw [readSingle_tie, C13_reader_other_field k field d h]; rfl
+
+open Pico.GoTie.DT in
+/-- … on its own field with the right wire type it stores the decoded value and advances past
+exactly that value, -/
+theorem C13_source_reader_consumes (k : Scalar) (field : Int) (d : Dec) (v : GoVal k)
+    (hp : d.cur.pendingField = field) (hw : d.cur.pendingWire = k.wire)
+    (hok : 0 ≤ (consumeScalar false k d.cur.buffer).2) :
+    srcReadSingle k field d v =
+      (nextField d (consumeScalar false k d.cur.buffer).2).bind fun d' =>
+        .ok (d', unS k (consumeScalar false k d.cur.buffer).1) := by
+  rw [readSingle_tie, C13_reader_consumes k field d hp hw hok]
+  cases nextField d (consumeScalar false k d.cur.buffer).2 <;> rfl
+
+open Pico.GoTie.DT in
+/-- … and a wrong wire type is a latched error naming the field; `*v` is left alone. -/
+theorem C13_source_wrong_wire_latches (k : Scalar) (field : Int) (d : Dec) (v : GoVal k)
+    (hp : d.cur.pendingField = field) (hw : d.cur.pendingWire ≠ k.wire) :
+    srcReadSingle k field d v = .ok (fail d field ("expected wire type " ++ wireName k.wire), v) := by
+  rw [readSingle_tie, C13_wrong_wire_latches k field d hp hw]; rfl
+
+open Pico.GoTie.DT in
+/-- SOURCE: the translated `Decoder.Repeated<Kind>` is the model's repeated reader (packed and
+unpacked occurrences) -/
+theorem C13_source_repeated_reader (k : Scalar) (field : Int) (d : Dec) (acc : List Enc.SVal) :
+    srcReadRepeated k field d (acc.map (unS k))
+      = Res.mapr (fun p => (p.1, p.2.map (unS k))) (readRepeated k field d acc) :=
+  readRepeated_tie k field d acc
+
+open Pico.GoTie.DT Pico.GoTie.ET in
+/-- SOURCE: the translated `Encoder.<Kind>` / `Encoder.Always<Kind>` appends the model's bytes
+(nothing for an omitted default), never panics and leaves `*v` as it was -/
+theorem C13_source_writer (oracle : Nat → Bytes) (always : Bool) (k : Scalar) (field : Int) (enc : EncLow.Buf)
+    (v : GoVal k) (h : InRange k v) :
+    ∃ t, srcWriteSingle oracle always k field enc v
+      = .ok (⟨enc.data ++ Enc.writeSingle always k field (toS k v), t⟩, v) :=
+  writeSingle_data oracle always k field enc v h
+
+open Pico.GoTie.DT Pico.GoTie.ET in
+/-- SOURCE: the translated `Encoder.Repeated<Kind>` / `Encoder.AlwaysRepeated<Kind>` likewise -/
+theorem C13_source_repeated_writer (oracle : Nat → Bytes) (always : Bool) (k : Scalar) (field : Int) (enc : EncLow.Buf)
+    (vs : List (GoVal k)) (hr : ∀ x ∈ vs, InRange k x) (hsz : enc.len + 10 * vs.length + 12 < 9223372036854775808) :
+    ∃ t, srcWriteRepeated oracle always k field enc vs
+      = .ok (⟨enc.data ++ Enc.writeRepeated always k field (vs.map (toS k)), t⟩, vs) :=
+  writeRepeated_tie oracle always k field enc vs hr hsz
+
+/-- TIE: decoder_types.go / encoder_types.go declare exactly the 30 readers and 60 writers translated -/
+theorem C13_source_coverage : GoSrc.DecTypes.names.length = 30 ∧ GoSrc.EncTypes.names.length = 60 :=
+  ⟨by rw [Pico.GoTie.DT.names_expected]; rfl, Pico.GoTie.ET.names_expected.1⟩
+
+/-- non-vacuity: a value in range and its bit pattern -/
+example : Pico.GoTie.ET.InRange .sint32 (-3 : Int) ∧ Pico.GoTie.ET.toS .sint32 (-3 : Int) = .num 4294967293 := by
+  refine ⟨by show (-2147483648 : Int) ≤ -3 ∧ (-3 : Int) < 2147483648; decide, ?_⟩
+  show Enc.SVal.num (Go.toU 32 (-3)) = _
+  decide
 
 end Pico.Props
